@@ -1001,6 +1001,21 @@ Proof.
   exact (Rg_push _ _ _ _ b (Rg_copy _ _ _ _ ns1 (build_Rg L ND))).
 Qed.
 
+(** Any depth of isolation: a third render below two others (each partial may
+    have pushed a block scope) still sees only its own tag's arguments, the
+    page's render arguments / matter / globals and the built-ins. *)
+Theorem copy3_lookup (L : layers) ns1 b1 ns2 b2 ns3 k :
+  NoDup (keys (w_tg (l_world L))) ->
+  st_lookup (ctx_copy (st_push (ctx_copy (st_push (ctx_copy (build L) ns1) b1) ns2) b2) ns3) k =
+  first_some [assoc k ns3;
+              assoc k (w_args (l_world L)); assoc k (w_matter (l_world L));
+              assoc k (w_tg (l_world L)); assoc k (w_eg (l_world L));
+              builtin_get k].
+Proof.
+  intro ND. eapply copy_lookup_gen; [exact ND|].
+  exact (Rg_push _ _ _ _ b2 (Rg_copy _ _ _ _ ns2 (Rg_push _ _ _ _ b1 (Rg_copy _ _ _ _ ns1 (build_Rg L ND))))).
+Qed.
+
 Lemma Rg_scope_wf w gl st a : Rg w gl st a -> scope_wf st.
 Proof.
   intros (bl & Hsc & _ & _ & _ & _ & _ & Hm & _ & Hlc & Hcl & Hbl & _) x Hx.
